@@ -124,6 +124,7 @@ static void *th_main (void *arg) {
         break;
       }
   }
+  api_cleanup_files (&t->api);
   return NULL;
 }
 
